@@ -142,6 +142,8 @@ pub struct Config {
     /// (delimited by `call_boundary()`) can be placed at any scheduling point of a non-atomic
     /// thread for one unit of this budget instead of a preemption. With `p = 0` this is the C08
     /// adversary: complete writes between any two steps of the thread under test.
+    /// Free placements of complete calls of atomic threads; `K_FROM_INSTANCE` = the harness
+    /// table decides (resolved by the runner before the engine starts).
     pub k: u32,
     /// Cap on engine steps of one execution.
     pub step_cap: u64,
@@ -151,6 +153,9 @@ pub struct Config {
     pub tls_reverse: bool,
 }
 
+/// See `Config::k`.
+pub const K_FROM_INSTANCE: u32 = u32::MAX;
+
 impl Default for Config {
     fn default() -> Self {
         Config {
@@ -158,7 +163,7 @@ impl Default for Config {
             s: 1,
             f: 1,
             model: Model::M1,
-            k: 0,
+            k: K_FROM_INSTANCE,
             step_cap: 5000,
             trace: false,
             tls_reverse: false,
@@ -1755,7 +1760,7 @@ fn run_one(cfg: &Config, prefix: &[CP], body: &StdArc<dyn Fn() + Send + Sync>) -
         st.p_left = cfg.p;
         st.s_left = cfg.s;
         st.f_left = cfg.f;
-        st.k_left = cfg.k;
+        st.k_left = if cfg.k == K_FROM_INSTANCE { 0 } else { cfg.k };
         st.atomic_return = None;
         st.steps = 0;
         st.drain = false;
